@@ -1,4 +1,4 @@
-import ApolloModel.Proofs.ParserTree24
+import ApolloModel.Proofs.ParserTree31
 import ApolloModel.Proofs.AstDocument3
 import ApolloModel.Proofs.AstText7
 import ApolloModel.Proofs.AstText8
@@ -520,6 +520,139 @@ theorem fragment_definition_pipeline (n : Nat) (s s' : PState) (st : Parse.St s)
   · exact ⟨cs, added, name, tc, dirs, sels, ed, h1, h4, h6, h7, h8, h9,
       fun m hm R o hp => FromCst.cDefinition_fragment m name tc dirs sels ed h9 hm R o hp⟩
   · exact absurd f id
+
+/-- **Stage (iv), operation definitions.**  An error-free run of `operation.rs::operation_definition` (entered anywhere:
+    on `query` / `mutation` / `subscription`, on the `{` of a shorthand query; everything else reports an error) consumed
+    the printer's tokens `tDefinition it.1 it.2` of ONE well-formed operation definition `it.2` — long form (`it.1 =
+    false`: OPERATION_TYPE, optional name, variable definitions, directives, selection set) or shorthand (`it.1 = true`:
+    the selection set alone, and `it.2` is the anonymous query) — and appended ONE element besides junk, an
+    OPERATION_DEFINITION node; `impl Convert for cst::Definition` on it (fuel + 1 ≥ its size) returns `it.2`. -/
+theorem operation_definition_pipeline (n : Nat) (s s' : PState) (st : Parse.St s)
+    (h : (Parse.operationDefinition n).run s = .ok () s') (hnd : ¬ Parse.Doomed s') :
+    ∃ (cs : List Parse.Tok) (added : List Elem) (it : Bool × Definition) (ed : Elem), Parse.Toks s = cs ++ Parse.Toks s' ∧ s'.builder.children = s.builder.children ++ added ∧
+      (Parse.sig cs).map Parse.astOfV = (tDefinition it.1 it.2).map some ∧ wfDefinition it.2 = true ∧
+      Parse.isExecutable it.2 = true ∧ Parse.sigE added = [ed] ∧
+      FromCst.nodeP (fun k => k == "OPERATION_DEFINITION" || k == "FRAGMENT_DEFINITION") ed = true ∧
+      ∀ (m : Nat), FromCst.size ed ≤ m + 1 → ∀ (R : List FromCst.Loc) (o : Nat) (hp : ∀ y ∈ nameRanges ed o, y ∈ R),
+        ∃ l, FromCst.cDefinition m ⟨(ed, o), hp⟩ = some (it.2, l) := by
+  obtain ⟨_, cs, added, h1, _, _, h4, h5⟩ := Parse.St.step (Parse.tr_operationDefinition n) st trivial h hnd
+  rcases h5 with ⟨it, ed, h6, h7, h8, h9, h10, h11⟩ | f
+  · exact ⟨cs, added, it, ed, h1, h4, h6, h7, h10, h8, h11, fun m hm R o hp => h9.2 m hm R o hp⟩
+  · exact absurd f id
+
+/-- **Stage (iv), the top level, generically.**  `Q tokens elements` is what ONE definition parser, started where the
+    dispatcher of `document()` starts it, consumes and builds (`DefTrs n Q`: twenty entry conditions, the same as C05's
+    `DefLemmas`).  Then `Parser::parse` (no token limit, any recursion limit) without error returns `DOCUMENT[…]` whose
+    significant children are, definition by definition, the elements built, and the significant tokens are the
+    definitions' tokens followed by EOF; the list of definitions is not empty.  (Instances: the executable definitions
+    below; the type-system definitions are builderA's `PipelineTypeSystem`.) -/
+theorem document_cst_of_accepted (Q : List Parse.Tok → List Elem → Prop) (L : ∀ n, Parse.DefTrs n Q) (rl : Nat)
+    (src : Parse.Str) (root : Elem)
+    (h : (parse .document none rl src).outcome = .tree root) (herr : (parse .document none rl src).errors = []) :
+    Parse.LexClean src ∧ ∃ ts e inner, Parse.sig (Parse.srcToks src) = ts ++ [e] ∧ e.kind = .eof ∧ root = Elem.node "DOCUMENT" inner ∧
+      ∃ items : List (List Parse.Tok × List Elem), items ≠ [] ∧ ts = (items.map (·.1)).flatten ∧
+        Parse.sigE inner = (items.map (·.2)).flatten ∧ ∀ i ∈ items, Q i.1 i.2 :=
+  Parse.parseDocument_cst L rl src root h herr
+
+/-- `Document::from_cst` on such a tree when every definition satisfies `DefItemR` (printer's tokens of a well-formed
+    definition in either form, ONE node, `impl Convert for cst::Definition` returns the definition): the tokens are
+    `itemsToks its`, and `from_cst` returns exactly the definitions of `its`. -/
+theorem document_from_cst_of_items (root : Elem) (inner : List Elem) (ts : List Parse.Tok)
+    (items : List (List Parse.Tok × List Elem)) (hroot : root = Elem.node "DOCUMENT" inner) (hne : items ≠ [])
+    (hts : ts = (items.map (·.1)).flatten) (hsig : Parse.sigE inner = (items.map (·.2)).flatten)
+    (hall : ∀ i ∈ items, Parse.DefItemR i.1 i.2) :
+    ∃ its : List (Bool × Definition), its ≠ [] ∧ ts.map Parse.astOfV = (itemsToks its).map some ∧
+      (∀ i ∈ its, wfDefinition i.2 = true) ∧ (FromCst.fromCst root).1 = its.map (·.2) :=
+  Parse.document_fromCst_of_items root inner ts items hroot hne hts hsig hall
+
+/-- **The token-view bridging lemma.**  The reference parser's reading of the lexer model's output
+    (`sigToks (lex none src)`, the view of `text_lexes_back` / `document_text_roundtrip`) is `X` exactly if the source
+    has no lexer error and the parser model's significant tokens (the view of the acceptance theorems of C05 / C07 and
+    of the pipeline theorems) are, through `astOfV`, `X` followed by the EOF token. -/
+theorem token_view_bridge (src : Parse.Str) (X : List Ast.Tok) :
+    sigToks (Apollo.Lex.lex none src) = some X ↔
+      Parse.LexClean src ∧ ∃ ts e, Parse.sig (Parse.srcToks src) = ts ++ [e] ∧ e.kind = .eof ∧ ts.map Parse.astOfV = X.map some :=
+  Parse.sigToks_src_iff src X
+
+/-- **executable_document_pipeline_agrees.**  For an accepted source whose tree holds executable definitions only
+    (`ExecRoot`: every child of the root that `Document::from_cst` looks at is an OPERATION_DEFINITION or a
+    FRAGMENT_DEFINITION): the lexer model's tokens are the printer's tokens `itemsToks its` of a non-empty list of
+    well-formed executable definitions (each in the long form, anonymous queries also in the shorthand form),
+    `Document::from_cst` on the tree of the CST parser returns exactly these definitions, and so does the reference
+    parser `pDocument` on the tokens (any fuel ≥ their size): the two models of `ast::Document::parse` agree. -/
+theorem executable_document_pipeline_agrees (rl : Nat) (src : Parse.Str) (root : Elem)
+    (h : (parse .document none rl src).outcome = .tree root) (herr : (parse .document none rl src).errors = [])
+    (hexec : Parse.ExecRoot root) :
+    ∃ its : List (Bool × Definition), its ≠ [] ∧ sigToks (Apollo.Lex.lex none src) = some (itemsToks its) ∧
+      (∀ i ∈ its, wfDefinition i.2 = true ∧ Parse.isExecutable i.2 = true) ∧
+      (FromCst.fromCst root).1 = its.map (·.2) ∧
+      ∀ f, szDefinitions (its.map (·.2)) ≤ f → pDocument f (itemsToks its) = some (its.map (·.2)) := by
+  obtain ⟨hclean, ts, e, its, h1, h2, h3, h4, h5, h6, h7⟩ := Parse.parseExecutableDocument_agrees rl src root h herr hexec
+  exact ⟨its, h3, (Parse.sigToks_src_iff src _).mpr ⟨hclean, ts, e, h1, h2, h4⟩, h5, h6, h7⟩
+
+/-- the same without looking at the tree: if the tokens of an accepted source are the printer's tokens of well-formed
+    executable definitions `its` (which definition parser ran is decided by the tokens: a type-system definition starts
+    with a description or a Name other than `query` / `mutation` / `subscription` / `fragment`, and an executable
+    definition is read back by the reference parser whatever follows it), `from_cst` returns the definitions of `its`. -/
+theorem executable_tokens_pipeline (rl : Nat) (src : Parse.Str) (root : Elem) (its : List (Bool × Definition))
+    (h : (parse .document none rl src).outcome = .tree root) (herr : (parse .document none rl src).errors = [])
+    (h0 : ∀ it ∈ its, wfDefinition it.2 = true ∧ Parse.isExecutable it.2 = true)
+    (hlex : sigToks (Apollo.Lex.lex none src) = some (itemsToks its)) :
+    (FromCst.fromCst root).1 = its.map (·.2) := by
+  obtain ⟨_, ts, e, hsig, _, hx⟩ := (Parse.sigToks_src_iff src _).mp hlex
+  exact Parse.pipeline_exec_of_tokens rl src root its h herr h0 ts e hsig hx
+
+/-- **pipeline_print_parse_executable_document.**  For every configuration (white-space indentation prefix or none,
+    any level) and every non-empty well-formed EXECUTABLE document `doc` (operations and fragments; names, IntValues and
+    FloatValues of the grammar's syntax) within the recursion limit: the printed text is accepted by the CST parser model
+    without error, and `Document::from_cst` on the tree returns `doc` itself.  Text level: `text_lexes_back_full`; token
+    views: `token_view_bridge`; acceptance: C05 `executable_document_accept_complete`; tree and conversion: the tree
+    calculus.  With `document_text_roundtrip` both models of `ast::Document::parse` read `print doc` back to `doc`. -/
+theorem pipeline_print_parse_executable_document (pre : Option Ast.Str) (level : Nat) (doc : Document) (hne : doc ≠ [])
+    (hwf : ∀ d ∈ doc, wfDefinition d = true) (hexec : ∀ d ∈ doc, Parse.isExecutable d = true)
+    (hpre : ∀ p, pre = some p → p.all Apollo.Strs.isWs = true)
+    (hn : NamesWf (docSegs pre level doc)) (hi : IntsSpec (docSegs pre level doc)) (hf : FloatsSpec (docSegs pre level doc))
+    (rl : Nat) (hfit : Parse.IsExecDocFit rl (toksOf (cDocument (outputEmptyAtStart pre level) doc))) :
+    (parse .document none rl (serializeDocument pre level doc).out).errors = [] ∧
+    ∃ root, (parse .document none rl (serializeDocument pre level doc).out).outcome = .tree root ∧
+      (FromCst.fromCst root).1 = doc := by
+  cases doc with
+  | nil => exact absurd rfl hne
+  | cons d r =>
+    have hlex := text_lexes_back_full pre level (d :: r) hpre hn hi hf
+    rw [toksOf_cDocument, tDocument_items] at hlex hfit
+    obtain ⟨hclean, ts, e, hsig, he, hx⟩ := (Parse.sigToks_src_iff _ _).mp hlex
+    have herr := Parse.parseDocument_complete_sig rl _ _ ts e hclean hsig he hx hfit
+    obtain ⟨root, hroot⟩ := Parse.parseDocument_tree none rl (serializeDocument pre level (d :: r)).out
+    have h0 : ∀ it ∈ ((outputEmptyAtStart pre level, d) :: r.map (fun d => (false, d)) : List (Bool × Definition)),
+        wfDefinition it.2 = true ∧ Parse.isExecutable it.2 = true := by
+      intro it hit
+      rcases List.mem_cons.mp hit with rfl | hit
+      · exact ⟨hwf d (by simp), hexec d (by simp)⟩
+      · obtain ⟨d', hd', rfl⟩ := List.mem_map.mp hit
+        exact ⟨hwf d' (by simp [hd']), hexec d' (by simp [hd'])⟩
+    have := Parse.pipeline_exec_of_tokens rl _ root _ hroot herr h0 ts e hsig hx
+    refine ⟨herr, root, hroot, ?_⟩
+    rw [this]
+    simp [List.map_map, Function.comp_def]
+
+/-- **The document theorem with the type system plugged in** (the interface for stage (v)).  `T : ∀ n, TsTrs n Q` are
+    the fifteen type-system entries of `DefTrs` (definitions and extensions, entered where the dispatcher enters them)
+    with any relation `Q`; the four operation entries and the fragment entry are this section's.  Then an accepted
+    document is `DOCUMENT[…]`, item by item an executable definition (`ExecItemR`: printer's tokens, well-formed, ONE
+    OPERATION_DEFINITION / FRAGMENT_DEFINITION node that converts) or a `Q` item, and if every `Q` item of the run is
+    a definition without liberties (`DefItemR`), `Document::from_cst` returns exactly the definitions, whose printer's
+    tokens are the significant tokens of the source. -/
+theorem document_pipeline_with_type_system (Q : List Parse.Tok → List Elem → Prop) (T : ∀ n, Parse.TsTrs n Q) (rl : Nat)
+    (src : Parse.Str) (root : Elem)
+    (h : (parse .document none rl src).outcome = .tree root) (herr : (parse .document none rl src).errors = []) :
+    Parse.LexClean src ∧ ∃ ts e inner, Parse.sig (Parse.srcToks src) = ts ++ [e] ∧ e.kind = .eof ∧ root = Elem.node "DOCUMENT" inner ∧
+      ∃ items : List (List Parse.Tok × List Elem), items ≠ [] ∧ ts = (items.map (·.1)).flatten ∧
+        Parse.sigE inner = (items.map (·.2)).flatten ∧ (∀ i ∈ items, Parse.ExecItemR i.1 i.2 ∨ Q i.1 i.2) ∧
+        ((∀ i ∈ items, Q i.1 i.2 → Parse.DefItemR i.1 i.2) →
+          ∃ its : List (Bool × Definition), its ≠ [] ∧ ts.map Parse.astOfV = (itemsToks its).map some ∧
+            (∀ i ∈ its, wfDefinition i.2 = true) ∧ (FromCst.fromCst root).1 = its.map (·.2)) :=
+  Parse.parseDocument_fromCst Q T rl src root h herr
 
 end Pipeline
 
